@@ -8,10 +8,15 @@ def run(ctx):
     from contracts import c05_emission as C
 
     dsl.verify(ctx, repo, dsl.Registry(), "C17", C.PYC + ".get_major_cn_prior", C.h_major_cn_prior, expect_covers=["major=1,accepted", "major=3,accepted", "major=1,rejected"])
+    from contracts import c17_loader as LD
+
+    LD.verify_all(ctx, repo, "C17")
     ctx.trust("pandas (read_table/read_csv, groupby-transform('size'), boolean filtering, unique, sort_values, set_index/at) and the CSV parser: the filtering and ordering rules "
               "are relational statements over pandas operations, outside the engine; covered by the bounded stand-in only",
               "M-PIGEON (Lean, lemmas/lean/MPigeon.lean): counts over S samples summing to S with no (>=2, 0) pair are all 1 - turns the code's row-count rule into the statement's rule")
-    ctx.extra["explanation"] = ("Deductive (small): a major copy number below the minor one is rejected with MajorCopyNumberError and accepted otherwise. Bounded: the real loader on generated "
+    ctx.extra["explanation"] = ("Deductive: a major copy number below the minor one is rejected with MajorCopyNumberError and accepted otherwise; the pure-Python part of the loader for any number of mutations / samples / clusters: "
+                                "rows are sorted by mutation id and grouped in that order, every (mutation, sample) pair is built from its own row, the i-th mutation becomes data point i with its own grid, name and singleton outlier probabilities, "
+                                "clustered input sums the member grids per cluster in sorted cluster-id order with that cluster's stored prior and size. The row filters themselves are pandas (bounded). Bounded: the real loader on generated "
                                 "tables (missing / duplicated / zero-copy-number mutations, optional columns, numeric and string sample ids, tab and comma) under row permutations, with "
                                 "and without cluster files, against an independent expectation computed from the raw rows.")
     if ctx.tier == "thorough":
